@@ -10,7 +10,7 @@ from gen_script import Gen
 
 PROP = "C01"
 NEEDS = ["model/Values.v", "model/Eval.v", "model/Loader.v", "model/Serialize.v", "model/Unparse.v", "model/Skeleton.v", "proofs/SerializeP.v",
-         "proofs/UnparseP.v", "proofs/RoundtripP.v", "extract/Extract.v", "model/Render.v", "proofs/RenderP.v"]
+         "proofs/UnparseP.v", "proofs/RoundtripP.v", "extract/Extract.v", "model/Render.v", "proofs/RenderP.v", "proofs/RenderLoadP.v"]
 
 
 import re
